@@ -44,21 +44,30 @@ def clean_part(p):
     return z3.And(p != z3.StringVal(""), p != z3.StringVal("."), z3.Not(z3.Contains(p, z3.StringVal("/"))))
 
 
-def all_clean(it, parts, tag="q"):
+def _forall_parts(parts, tag, body):
     i = z3.Int(f"i!{tag}")
-    return z3.ForAll([i], z3.Implies(z3.And(i >= 0, i < z3.Length(parts)), clean_part(parts[i])), patterns=[parts[i]])
+    f = z3.Implies(z3.And(i >= 0, i < z3.Length(parts)), body(parts[i]))
+    try:
+        return z3.ForAll([i], f, patterns=[parts[i]])
+    except z3.Z3Exception:
+        return z3.ForAll([i], f)
+
+
+def all_clean(it, parts, tag="q"):
+    return _forall_parts(parts, tag, clean_part)
 
 
 def no_dotdot(parts, tag="q"):
-    i = z3.Int(f"i!{tag}")
-    return z3.ForAll([i], z3.Implies(z3.And(i >= 0, i < z3.Length(parts)), parts[i] != DD), patterns=[parts[i]])
+    """no part equals '..' (quantifier-free: sequence containment of the unit sequence)"""
+    return z3.Not(z3.Contains(parts, z3.Unit(DD)))
 
 
 class PathVal(Model):
     model_name = "path"
 
-    def __init__(self, flavour, anchor, parts, concrete=None, opaque=None):
+    def __init__(self, flavour, anchor, parts, concrete=None, opaque=None, abs_known=None):
         super().__init__()
+        self.abs_known = abs_known
         self.flavour = flavour  # 'posix' | 'any'
         self.anchor = anchor  # python str or SV str (only "", "/", "//")
         self.parts = parts  # z3 Seq(String)
@@ -70,6 +79,8 @@ class PathVal(Model):
         return term(self.anchor)
 
     def is_abs_term(self):
+        if self.abs_known is not None:
+            return self.abs_known
         if isinstance(self.anchor, str):
             return self.anchor != ""
         return self.anchor.t != z3.StringVal("")
@@ -102,7 +113,9 @@ class PathVal(Model):
         if name == "name":
             return SV("str", z3.If(n > 0, self.parts[n - 1], z3.StringVal("")))
         if name == "parent":
-            return PathVal(self.flavour, self.anchor, z3.simplify(z3.If(n > 0, z3.SubSeq(self.parts, 0, n - 1), self.parts)))
+            if it.ctx.branch(n > 0, "parent-nonroot"):
+                return PathVal(self.flavour, self.anchor, z3.simplify(z3.SubSeq(self.parts, 0, n - 1)), abs_known=self.abs_known)
+            return self
         if name == "is_absolute":
             return Builtin("path.is_absolute", lambda i, a, k: i.mk_bool(self.is_abs_term()))
         if name == "relative_to":
@@ -146,6 +159,9 @@ class PathVal(Model):
                 return i.mk_bool(f_any_rel(self.opaque, other.opaque))
 
             return Builtin("path.is_relative_to", isrel)
+        if name == "name":
+            f_name = z3.Function("opath_name", OP, S)
+            return SV("str", f_name(self.opaque))
         if name == "parent":
             f_parent = z3.Function("opath_parent", OP, OP)
             return PathVal("any", None, None, opaque=f_parent(self.opaque))
@@ -187,12 +203,12 @@ class PartsView(Model):
         if isinstance(k, slice) and k.start == 1 and k.stop is None and k.step is None:
             absn = p.is_abs_term()
             if absn is True:
-                return SeqStr(p.parts)
+                return SeqStr(p.parts, clean=True)
             if absn is False:
                 n = z3.Length(p.parts)
-                return SeqStr(z3.simplify(z3.SubSeq(p.parts, 1, n - 1)))
+                return SeqStr(z3.simplify(z3.SubSeq(p.parts, 1, n - 1)), clean=True)
             full = self.as_seq(it)
-            return SeqStr(z3.SubSeq(full, 1, z3.Length(full) - 1))
+            return SeqStr(z3.SubSeq(full, 1, z3.Length(full) - 1), clean=True)
         if isinstance(k, slice):
             full = self.as_seq(it)
             n = z3.Length(full)
@@ -215,15 +231,34 @@ class SeqStr(Model):
 
     model_name = "seqstr"
 
-    def __init__(self, seq):
+    def __init__(self, seq, clean=False):
         super().__init__()
         self.seq = seq
+        self.clean = clean  # every element is a parsed path component (T-path: non-empty, not '.', no '/')
 
     def m___len__(self, it):
         return SV("int", z3.Length(self.seq))
 
     def truthy(self, it):
         return z3.Length(self.seq) > 0
+
+    def eq(self, it, other):
+        if isinstance(other, SeqStr):
+            return self.seq == other.seq
+        if isinstance(other, (tuple, list)):
+            return self.seq == seq_of(list(other))
+        return False
+
+    def getitem(self, it, k):
+        n = z3.Length(self.seq)
+        if isinstance(k, slice):
+            a = z3.IntVal(0) if k.start is None else strmodel._norm_index(as_int(k.start), n)
+            b = n if k.stop is None else strmodel._norm_index(as_int(k.stop), n)
+            return SeqStr(z3.simplify(z3.SubSeq(self.seq, a, z3.If(b - a < 0, 0, b - a))))
+        i = as_int(k)
+        if not it.ctx.branch(z3.And(i < n, i >= -n), "seq-index"):
+            it.throw("IndexError", "tuple index out of range")
+        return SV("str", self.seq[z3.If(i < 0, i + n, i)])
 
     def for_loop(self, it, spec, lname, env, qual, s):
         """for x in <SeqStr>: ghost split  done ++ [x] ++ todo == seq  (index-free, DESIGN 2.7)."""
@@ -259,6 +294,9 @@ class SeqStr(Model):
             todo = st["todo"]
             x = fresh("str", "elem")
             it.ctx.assume(x.t == todo[0])
+            it.ctx.assume(x.t == seq[z3.Length(st["done"])])
+            if self.clean:
+                it.ctx.assume(clean_part(x.t))
             st["x"] = x
             it.assign(s.target, x, env)
             env.vars["_x"] = x
@@ -267,6 +305,8 @@ class SeqStr(Model):
 
         spec.ghost_loop = True
         spec.st = st
+        env.vars["_done"] = SeqStr(z3.Empty(SS))
+        env.vars["_todo"] = SeqStr(seq)
         it.inv_loop(spec, lname, env, qual, s, cond, pre_body)
         # after the loop: todo is empty, so done == seq
         env.vars["_done"] = SeqStr(seq)
@@ -290,6 +330,16 @@ def parse_posix(it, v):
         parts = list(p.parts[1:] if anchor else p.parts)
         return PathVal("posix", anchor, z3.simplify(seq_of(parts)))
     if isinstance(v, SV) and v.k == "str":
+        if z3.is_app(v.t) and v.t.decl().eq(f_path_str):
+            # J1 (assumed): str(p) parses back to p
+            a0, ps0 = v.t.children()
+            a0s = z3.simplify(a0)
+            anchor = a0s.as_string() if z3.is_string_value(a0s) else SV("str", a0)
+            return PathVal("posix", anchor, ps0)
+        A = it.ctx.assume
+        A(z3.Implies(clean_part(v.t), z3.And(f_parse_anchor(v.t) == z3.StringVal(""), f_parse_parts(v.t) == z3.Unit(v.t))))
+        if it.ctx.proved(clean_part(v.t), "clean-part"):
+            return PathVal("posix", "", z3.Unit(v.t))
         a = SV("str", f_parse_anchor(v.t))
         ps = f_parse_parts(v.t)
         A = it.ctx.assume
@@ -323,8 +373,8 @@ def join(it, p, other):
     if qa is False:
         return PathVal(p.flavour, p.anchor, z3.simplify(z3.Concat(p.parts, q.parts)))
     if it.ctx.branch(qa, "join-abs"):
-        return q
-    return PathVal(p.flavour, p.anchor, z3.simplify(z3.Concat(p.parts, q.parts)))
+        return PathVal(q.flavour, q.anchor, q.parts, abs_known=True)
+    return PathVal(p.flavour, p.anchor, z3.simplify(z3.Concat(p.parts, q.parts)), abs_known=p.abs_known)
 
 
 def _join_many(it, p, args):
